@@ -88,6 +88,11 @@ func c02R6(c *Ctx, rule string) {
 				case name == "Read" && (topFn(f) == rd || p.inUnit(rd, f)):
 					nR++
 					c.OK(rule, construct, c.at(i), "consumed by the pipe's Read")
+				case name == "Next" && (topFn(f) == rd || p.inUnit(rd, f)) && deliveredByCopy(call, rd):
+					// buf.Next(n) hands out the next n unread bytes; they are delivered when the slice is only ever the
+					// source of a copy into the reader's own buffer
+					nR++
+					c.OK(rule, construct, c.at(i), "consumed by the pipe's Read (Next copied into the reader's buffer)")
 				case name == "Write" && (topFn(f) == wr || p.inUnit(wr, f)):
 					nW++
 					c.OK(rule, construct, c.at(i), "appended by the pipe's Write")
@@ -102,6 +107,41 @@ func c02R6(c *Ctx, rule string) {
 			c.Undecided(rule, typ+": buf.Read in Read and buf.Write in Write", c.atFn(rd), "the pipe's own read/append not found")
 		}
 	}
+}
+
+// deliveredByCopy: every use of the slice returned by call is as the source of copy(dst, ·) with dst a (slice of the)
+// target parameter of the pipe's Read.
+func deliveredByCopy(call *ssa.Call, rd *ssa.Function) bool {
+	if call.Referrers() == nil || len(rd.Params) < 2 {
+		return false
+	}
+	n := 0
+	for _, r := range *call.Referrers() {
+		if _, isDbg := r.(*ssa.DebugRef); isDbg {
+			continue
+		}
+		cp, ok := r.(*ssa.Call)
+		if !ok || calleeName(&cp.Call) != "builtin.copy" || cp.Call.Args[1] != ssa.Value(call) {
+			return false
+		}
+		dst := cp.Call.Args[0]
+		for d := 0; d < 4; d++ {
+			if sl, isSl := dst.(*ssa.Slice); isSl {
+				dst = sl.X
+				continue
+			}
+			break
+		}
+		tgt := ssa.Value(rd.Params[1])
+		if dst != tgt {
+			// a helper split off from Read receives the target as an argument
+			if pr, isP := dst.(*ssa.Parameter); !isP || !strings.Contains(typeStr(pr.Type()), "[]byte") {
+				return false
+			}
+		}
+		n++
+	}
+	return n > 0
 }
 
 func isBytesBuffer(t types.Type) bool {
